@@ -258,10 +258,16 @@ inline void meshQueryChecks(vh::Ctx& c, const BuiltMesh& b, vh::Rng& r, int nNea
             if (bi.ok && wnClear && wnIn == bi.inside) c.require(std::string("inside:mesh-nearest:") + triFeature(bf.p, m.vert(bf.face, 0), m.vert(bf.face, 1), m.vert(bf.face, 2)), inA == bi.inside, [&]() { return W().set("parity_inside", bi.inside).set("winding_number", (double)wn).set("flag", inA); });
             else c.skip("inside-oracles-not-clean");
         }
-        // findNearestPointToFace: the per-face service used by the tree
-        Vec2 uvf; Vec3 pf = tm.findNearestPointToFace(x, bf.face, uvf);
-        LD dface = distToTriangle(V3(x), m.vert(bf.face, 0), m.vert(bf.face, 1), m.vert(bf.face, 2));
-        c.check("nearest-to-face:" + tier, std::fabs((pf - x).norm() - (double)dface), tol, W);
+        // findNearestPointToFace: the per-face service used by the tree; on the nearest face and on two random faces
+        // (a random face sees the query in any of the seven Voronoi regions of its plane)
+        for (int rep = 0; rep < 3; ++rep) {
+        const int tf = rep == 0 ? bf.face : r.integer(0, m.nf() - 1);
+        Vec2 uvf; Vec3 pf = tm.findNearestPointToFace(x, tf, uvf);
+        LD dface = distToTriangle(V3(x), m.vert(tf, 0), m.vert(tf, 1), m.vert(tf, 2));
+        c.check("nearest-to-face:" + tier, std::fabs((pf - x).norm() - (double)dface), tol, [&]() {
+            return W().set("tested_face", tf).set("v0", jv(m.vert(tf, 0))).set("v1", jv(m.vert(tf, 1))).set("v2", jv(m.vert(tf, 2)))
+                      .set("returned_by_findNearestPointToFace", jv(pf)).set("its_uv", jv(uvf)).set("its_distance", (pf - x).norm()).set("exact_distance", (double)dface); });
+        }
     }
     static const char* RC[5] = {"outside-toward", "inside", "outside-random", "far", "on-face"};
     for (int q = 0; q < nRay; ++q) {
